@@ -139,10 +139,33 @@ pub fn log(body: &str) {
     log_in(s, body);
 }
 
+/// Per program, at most this many high-volume events (closure calls, source advances, reduce
+/// calls) are recorded; a program that goes on (an endless evaluation) gets one `trunc` event.
+const EVENT_CAP: u64 = 60_000;
+
 fn log_in(s: &mut Inner, body: &str) {
     s.seq += 1;
     s.events_in_run += 1;
     let _ = writeln!(s.buf, "{{\"i\":{},{}}}", s.seq, body);
+}
+
+fn capped(s: &mut Inner) -> bool {
+    if s.events_in_run < EVENT_CAP {
+        return false;
+    }
+    if s.events_in_run == EVENT_CAP {
+        log_in(s, "\"e\":\"trunc\"");
+    }
+    true
+}
+
+/// Appends one high-volume event unless the cap of the current program is reached.
+pub fn log_capped(body: &str) {
+    let mut g = lock();
+    let s = g.as_mut().expect("init");
+    if !capped(s) {
+        log_in(s, body);
+    }
 }
 
 pub fn take_buf() -> String {
@@ -377,7 +400,7 @@ pub fn closure_enter(stage: u32, key: u32, val: i32, is_yield: bool) {
     let mut g = lock();
     {
         let s = g.as_mut().expect("init");
-        if s.log_calls {
+        if s.log_calls && !capped(s) {
             let body = format!(
                 "\"e\":\"call\",\"a\":{},\"t\":{},\"s\":{},\"k\":{},\"v\":{}",
                 me,
